@@ -30,7 +30,7 @@ import (
 var c09Locs = []string{"A", "B", "C"}
 
 type c09op struct {
-	Kind string // addfact remfact addrule remrule parents event
+	Kind string // addfact remfact addrule remrule parents event clear
 	Loc  string
 	Ps   []string
 }
@@ -53,6 +53,8 @@ func c09Ops() []c09op {
 	for _, l := range c09Locs {
 		ops = append(ops, c09op{"addfact", l, nil}, c09op{"remfact", l, nil}, c09op{"addrule", l, nil}, c09op{"remrule", l, nil})
 	}
+	// clearing a location also forgets its parent set (the set is a property fact)
+	ops = append(ops, c09op{"clear", "C", nil}, c09op{"clear", "B", nil})
 	sets := [][]string{{}, {"A"}, {"B"}, {"C"}, {"A", "B"}, {"A", "C"}, {"B", "C"}}
 	for _, l := range c09Locs {
 		for _, ps := range sets {
@@ -263,6 +265,14 @@ func (in *c09inst) Apply(opi int) *lib.Violation {
 			res = fail(err)
 		}
 		delete(in.rules[x], "r"+lc)
+	case "clear":
+		if err := in.world.Clear(x); err != nil {
+			res = fail(err)
+		} else {
+			in.facts[x] = map[string]map[string]interface{}{}
+			in.rules[x] = map[string]bool{}
+			in.parents[x] = nil
+		}
 	case "parents":
 		if err := in.world.SetParents(x, op.Ps); err != nil {
 			res = fail(err)
